@@ -71,16 +71,17 @@ def predict(ctx, util, rng, n, reps):
     f = ca.Function("p", [W, F, Q], [ca.densify(out)])
     errs, tri, inputs = [], [], []
     for _ in range(reps):
-        Wn = rand_lower(rng, n)
+        sc_ = float(rng.choice([1e-6, 1e-3, 1.0, 1.0, 1e3]))  # overall scale of the state (units)
+        Wn = rand_lower(rng, n) * sc_
         Fn = rng.normal(size=(n, n)) * rng.choice([0.0, 1.0, 10.0])
         r = int(rng.integers(0, n + 1))
         A = rng.normal(size=(n, r)) if r else np.zeros((n, 1))
-        Qn = A @ A.T * rng.choice([1e-3, 1.0])
+        Qn = A @ A.T * rng.choice([1e-3, 1.0]) * sc_**2
         Wd = np.array(f(ca.DM(ca.Sparsity.lower(n), lower_pack(Wn)), Fn, Qn))
         P = Wn @ Wn.T
         lhs = Wd @ Wn.T + Wn @ Wd.T
         rhs = Fn @ P + P @ Fn.T + Qn
-        sc = max(1.0, np.abs(rhs).max(), np.abs(Wd).max() * np.abs(Wn).max())
+        sc = max(1e-300, np.abs(rhs).max(), np.abs(Wd).max() * np.abs(Wn).max())
         cond = np.linalg.cond(Wn)
         errs.append(np.abs(lhs - rhs).max() / (sc * max(1.0, cond * 1e-3)) if np.isfinite(Wd).all() else np.inf)
         # entries above the diagonal are *solved* to zero (linear system for the skew correction): zero up to round-off
@@ -104,23 +105,24 @@ def correct(ctx, util, rng, n, m, reps):
     f = ca.Function("c", [Rs, H, W], [ca.densify(o) for o in out])
     eK, eS, eP, eT, ePSD, eMono, inputs = [], [], [], [], [], [], []
     for _ in range(reps):
-        Wn = rand_lower(rng, n, cond_max=1e4)
+        sc_ = float(rng.choice([1e-6, 1e-3, 1.0, 1.0, 1e3]))  # overall scale (units): small-innovation regimes included
+        Wn = rand_lower(rng, n, cond_max=1e4) * sc_
         Hn = rng.normal(size=(m, n))
         if rng.random() < 0.2:
             Hn[int(rng.integers(0, m))] = 0.0
         if m > 1 and rng.random() < 0.1:
             Hn[1] = Hn[0]
-        Rn = rand_lower(rng, m, cond_max=1e3)
+        Rn = rand_lower(rng, m, cond_max=1e3) * sc_ * float(rng.choice([0.1, 1.0, 10.0]))
         Wp, K, Ss = [np.array(o) for o in f(ca.DM(ca.Sparsity.lower(m), lower_pack(Rn)), Hn, ca.DM(ca.Sparsity.lower(n), lower_pack(Wn)))]
         P = Wn @ Wn.T
         S = Hn @ P @ Hn.T + Rn @ Rn.T
         Kref = P @ Hn.T @ np.linalg.inv(S)
         Ppost = (np.eye(n) - Kref @ Hn) @ P
         c = max(1.0, np.linalg.cond(S) * 1e-4)
-        sc = max(1.0, np.abs(P).max())
+        sc = max(1e-300, np.abs(P).max())
         fin = np.isfinite(Wp).all() and np.isfinite(K).all() and np.isfinite(Ss).all()
         eK.append(np.abs(K - Kref).max() / (max(1.0, np.abs(Kref).max()) * c) if fin else np.inf)
-        eS.append(np.abs(Ss @ Ss.T - S).max() / max(1.0, np.abs(S).max()) if fin else np.inf)
+        eS.append(np.abs(Ss @ Ss.T - S).max() / max(1e-300, np.abs(S).max()) if fin else np.inf)
         eP.append(np.abs(Wp @ Wp.T - Ppost).max() / (sc * c) if fin else np.inf)
         eT.append(max(np.abs(np.triu(Wp, 1)).max(), np.abs(np.triu(Ss, 1)).max()) if fin else np.inf)
         Pp = Wp @ Wp.T
@@ -149,7 +151,7 @@ def factorizations(ctx, util, rng, n, reps):
         for _ in range(reps):
             A = rng.normal(size=(n, n))
             Qm, _ = np.linalg.qr(A)
-            ev = np.exp(rng.uniform(0, np.log(rng.choice([1e1, 1e3, 1e6])), n))
+            ev = np.exp(rng.uniform(0, np.log(rng.choice([1e1, 1e3, 1e6])), n)) * float(rng.choice([1e-14, 1e-9, 1e-4, 1.0, 1.0, 1e4]))
             Pn = (Qm * ev) @ Qm.T
             Pn = (Pn + Pn.T) / 2
             T, D = [np.array(o) for o in f(Pn)]
